@@ -179,6 +179,16 @@ def oracle(init, ops, rets, final, trace):
                for i in items):
             return None       # a key attribute that is not a string: SeasoningError is the documented check
         if not all(attr(i, k) is not None for i in items):
+            # an item without the key attribute makes the transform inapplicable -- unless, in strict mode, a duplicate key is met
+            # among the items BEFORE it: the docstring fixes no order between the two checks, so either outcome is accepted there
+            seen = []
+            for i in items:
+                if attr(i, k) is None:
+                    break
+                seen.append(attr(i, k).value)
+            if op[4] and len(set(seen)) != len(seen) and r0[0] == 'exn' and type(r0[1]).__name__ == 'SeasoningError' \
+                    and trace[0] == before:
+                return None
             return unchanged('item-without-key-attribute')
         keys = [attr(i, k) for i in items]
         if not all(isinstance(x, yaml.ScalarNode) and x.tag == TAG + 'str' for x in keys):
